@@ -17,7 +17,7 @@ def sh(cmd, cwd=None, timeout=1500):
 
 def main():
     name, out, prop = sys.argv[1], sys.argv[2], sys.argv[3]
-    checks = sys.argv[4:] or [prop]
+    checks = [prop] + [c for c in sys.argv[4:] if c != prop]
     dst = os.path.join(V, "seeded", name)
     os.makedirs(dst, exist_ok=True)
     patch = os.path.join(out, "patch.diff")
